@@ -13,16 +13,18 @@ def parseOutcome (s : String) : R Outcome :=
   | "comm" => pure .comm | "exc" => pure .exc
   | _ => throw s!"bad outcome {s}"
 
-/-- `"d"` = doPoll, `"i"` = initialReads, a number = `read_<p>` -/
+/-- `"d"` = doPoll, `"i"` = initialReads, `"w"` = writeInitParams (in the start-up round or behind it), a number = `read_<p>` -/
 def parseFn (j : Json) : R Fn :=
   match j with
   | .str "d" => pure .doPoll
   | .str "i" => pure .init
+  | .str "w" => pure .write
   | _ => do return .read (← j.getNat?)
 
 def fnJson : Fn → Json
   | .doPoll => Json.str "d"
   | .init => Json.str "i"
+  | .write => Json.str "w"
   | .read p => jnat p
 
 def parseExt (j : Json) : R Ext := do
